@@ -43,6 +43,15 @@ SHARE = {"on": False, "g": None, "key": None}      # set by emission.run_instanc
 
 BUILDS = ("plain", "flipped", "mixed", "grown")
 
+# explicit graphs whose STORED edge orientations go round their cycles (add_edge(0,1); add_edge(1,2); add_edge(2,0)): a
+# tie-break by stored orientation is a total order on graphs written (low, high) and only shows on these (round-6 seed C06)
+ROUND_GRAPHS = [
+    (6, [[0, 1], [1, 2], [2, 0], [3, 4], [4, 5], [5, 3]]),          # two triangles, both going round
+    (5, [[0, 1], [1, 0], [2, 3], [3, 4], [4, 2]]),                  # a parallel pair going round + a triangle going round
+    (7, [[0, 1], [1, 2], [2, 0], [3, 4], [4, 5], [5, 6], [6, 3]]),  # triangle + square
+    (4, [[0, 1], [1, 2], [2, 3], [3, 0], [0, 2]]),                  # square going round with a chord
+]
+
 
 def with_builds(descs):
     """every explicit-graph instance additionally in the other build variants (all four for graphs
@@ -120,6 +129,9 @@ def descs_C05(tier):
                             for as_array in (False, True):
                                 yield dict(func="division_connected", n=n, edges=[list(e) for e in edges], R=R,
                                            roots=roots, allow_empty=allow_empty, prim=prim, as_array=as_array)
+    for (n, edges) in ROUND_GRAPHS:
+        for allow_empty in (False, True):
+            yield dict(func="division_connected", n=n, edges=[list(e) for e in edges], R=2, roots=None, allow_empty=allow_empty, prim=False, as_array=True)
     shapes = [(1, 1), (1, 3), (3, 1), (2, 2), (2, 3)] + ([(3, 2), (1, 5), (2, 4), (3, 3)] if tier != "quick" else [])
     for (h, w) in shapes:
         for R in (1, 2, 3):
@@ -204,6 +216,8 @@ def descs_C06(tier):
                 for edges in multigraphs(4, 5):
                     if len(set(edges)) < len(edges):
                         yield dict(func=func, n=4, edges=[list(e) for e in edges], prim=prim, form="vars")
+            for (n, edges) in ROUND_GRAPHS:
+                yield dict(func=func, n=n, edges=[list(e) for e in edges], prim=prim, form="vars", keep_orientation=True)
             frames = [(0, 0), (0, 2), (1, 0), (1, 1), (1, 2), (2, 1), (2, 2)] + ([(1, 3), (3, 1), (2, 3), (3, 2)] if tier != "quick" else [])
             for (h, w) in frames:
                 yield dict(func=func, frame=[h, w], prim=prim)
@@ -343,6 +357,10 @@ def descs_C07(tier):
                 if len(edges) <= 5:
                     for prim in (False, True):
                         yield dict(func="division_connected_variable_groups_with_borders", n=n, edges=[list(e) for e in edges], size=sf, prim=prim)
+    for (n, edges) in ROUND_GRAPHS[:2] + ROUND_GRAPHS[3:]:
+        yield dict(func="division_connected_variable_groups_with_borders", n=n, edges=[list(e) for e in edges], size="none", prim=False)
+        yield dict(func="division_connected_variable_groups_with_borders", n=n, edges=[list(e) for e in edges],
+                   size="list:" + ",".join(["3"] + ["-"] * (n - 1)), prim=False)
     shapes = [(1, 1), (1, 3), (2, 2)] + ([(3, 1), (2, 3), (3, 2)] if tier != "quick" else [])
     for (h, w) in shapes:
         n = h * w
@@ -401,6 +419,11 @@ def descs_C08(tier):
             for edges in simple_graphs(n):
                 for form in (("vars", "neg") if n < nmax else ("vars",)):
                     yield dict(func=func, n=n, edges=[list(e) for e in edges], form=form)
+        # "all graphs": self-loops (an edge whose two end points are the same vertex: that vertex cannot be active) and
+        # parallel edges
+        for n, edges in ((1, [[0, 0]]), (2, [[0, 0], [0, 1]]), (2, [[1, 1]]), (3, [[0, 1], [1, 1], [1, 2]]), (3, [[0, 1], [0, 1], [2, 2]]),
+                         (3, [[0, 1], [1, 2], [2, 0], [0, 0]]), (4, [[0, 1], [1, 2], [2, 3], [3, 3], [0, 0]])):
+            yield dict(func=func, n=n, edges=[list(e) for e in edges], form="vars")
         shapes = [(1, 1), (1, 2), (2, 1), (1, 3), (3, 1), (1, 4), (4, 1), (1, 5), (2, 2), (2, 3), (3, 2), (3, 3), (2, 4)]
         if tier != "quick":
             shapes += [(5, 1), (1, 6), (6, 1), (1, 8), (4, 2), (2, 5), (5, 2), (3, 4), (4, 3), (2, 6), (4, 4)]
@@ -442,6 +465,8 @@ def descs_C09(tier):
                 yield dict(func="active_edges_acyclic", n=n, edges=[list(e) for e in edges], form=form)
     for edges in simple_graphs(4):
         yield dict(func="active_edges_acyclic", n=4, edges=[list(e) for e in edges], form="vars")
+    for (n, edges) in ROUND_GRAPHS:
+        yield dict(func="active_edges_acyclic", n=n, edges=[list(e) for e in edges], form="vars", keep_orientation=True)
     if tier != "quick":
         for edges in simple_graphs(5):
             yield dict(func="active_edges_acyclic", n=5, edges=[list(e) for e in edges], form="vars")
